@@ -33,6 +33,8 @@ ERR_CLASSES = [
 
 def _q(x):
     """exact decimal denoted by the shortest repr of a float (what str() prints into the Polar program)"""
+    if x != x:
+        return "nan"      # an unspecified entry that survived (only possible if the completeness check is gone)
     f = Fr(repr(float(x)))
     return str(f.numerator) if f.denominator == 1 else f"{f.numerator}/{f.denominator}"
 
